@@ -38,9 +38,14 @@ enum Attack {
     FromUnproven,
     HonestUnsolicited,
     UnverifiedTail,
+    /// a full interval of made-up filter hashes from one proved peer, ending exactly at the next
+    /// check point (the last one made up too)
+    ForgedFullCache,
+    /// the same with the right hash in the last position (the next check point itself)
+    ForgedCacheRightEnd,
 }
 
-const ATTACKS: [Attack; 11] = [
+const ATTACKS: [Attack; 13] = [
     Attack::TamperFilter,
     Attack::SubstituteHashOnChain,
     Attack::SubstituteHashRandom,
@@ -52,6 +57,8 @@ const ATTACKS: [Attack; 11] = [
     Attack::FromUnproven,
     Attack::HonestUnsolicited,
     Attack::UnverifiedTail,
+    Attack::ForgedFullCache,
+    Attack::ForgedCacheRightEnd,
 ];
 
 /// ids for byte strings (hashes, filters)
@@ -351,7 +358,7 @@ pub fn run(opts: &Options) -> Report {
         }
         // the partial-cache attack needs the moment right after the filtered height entered a
         // finalized interval whose filter hashes are not cached yet: go on message by message
-        if aborted.is_none() && attack == Attack::PartialCache {
+        if aborted.is_none() && matches!(attack, Attack::PartialCache | Attack::ForgedFullCache | Attack::ForgedCacheRightEnd) {
             let window = |node: &Node| {
                 let (fin_idx, _) = node.i().storage.get_last_check_point();
                 let (cached_idx, cached) = node.i().peers.get_cached_block_filter_hashes();
@@ -507,6 +514,44 @@ pub fn run(opts: &Options) -> Report {
                         }
                         note = format!("honest filters {}..={} followed by quiet filters for the unannounced blocks {}..={}", start, chain.tip_number(), first_new, br2.chain.tip_number());
                     }
+                    Attack::ForgedFullCache | Attack::ForgedCacheRightEnd => {
+                        let cached_number = cached_idx as u64 * interval;
+                        if start <= fin_number && cached.is_empty() && start > cached_number && start <= cached_number + interval {
+                            let quiet = (1..=chain.tip_number()).find(|n| !br.facts.iter().any(|f| f.1 == *n)).unwrap_or(1);
+                            let qf = chain.filters[quiet as usize].clone();
+                            let cps = node.i().storage.get_check_points(cached_idx, 2);
+                            let cp = cps[0].clone();
+                            let mut fake = Vec::new();
+                            let mut parent = cp.clone();
+                            for _ in 0..interval {
+                                let h: Byte32 = calc_filter_hash(&parent, &qf).pack();
+                                fake.push(h.clone());
+                                parent = h;
+                            }
+                            let mut k = (cached_number + interval + 1 - start) as usize;
+                            if attack == Attack::ForgedCacheRightEnd && cps.len() == 2 {
+                                // the last hash is the check point itself: the last filter cannot be
+                                // made to fit, everything before it can
+                                *fake.last_mut().unwrap() = cps[1].clone();
+                                k -= 1;
+                            }
+                            let hm = fmsg(
+                                packed::BlockFilterHashes::new_builder()
+                                    .start_number((cached_number + 1).pack())
+                                    .parent_block_filter_hash(cp)
+                                    .block_filter_hashes(fake.clone().pack())
+                                    .build(),
+                            );
+                            msgs.push((p3, hm));
+                            filters = vec![qf; k];
+                            hashes = (0..k as u64).map(|i| chain.block((start + i).min(chain.tip_number())).hash()).collect();
+                            note = format!("made-up filter hashes for the whole interval {}..={} then {} quiet filters from {}", cached_number + 1, cached_number + interval, k, start);
+                        } else {
+                            note = "not applicable here".into();
+                            filters.clear();
+                            hashes.clear();
+                        }
+                    }
                     Attack::PartialCache => {
                         // only inside a finalized interval whose hashes are not cached yet
                         let cached_number = cached_idx as u64 * interval;
@@ -543,7 +588,7 @@ pub fn run(opts: &Options) -> Report {
                         }
                     }
                 }
-                if !(filters.is_empty() && hashes.is_empty() && attack == Attack::PartialCache) {
+                if !(filters.is_empty() && hashes.is_empty() && matches!(attack, Attack::PartialCache | Attack::ForgedFullCache | Attack::ForgedCacheRightEnd)) {
                     msgs.push((from, build(claim_start, &filters, &hashes)));
                     sent_filters = filters;
                     _sent_hashes = hashes;
